@@ -67,10 +67,36 @@ fn overflow_checks_on() -> bool {
     std::panic::catch_unwind(|| x + std::hint::black_box(1)).is_err()
 }
 
+struct Moved(exec::Exec);
+// The wrapper asserts Send for the harness' own bookkeeping only; whether the generator types
+// are Send/Sync is checked separately by the `sendsync` binary.
+unsafe impl Send for Moved {}
+
+/// A persistent OS thread that executes ops on whatever instances are moved to it.
+struct Worker {
+    tx: std::sync::mpsc::Sender<(Moved, Value)>,
+    rx: std::sync::mpsc::Receiver<(Moved, Value)>,
+}
+
+fn spawn_worker() -> Worker {
+    let (tx, wrx) = std::sync::mpsc::channel::<(Moved, Value)>();
+    let (wtx, rx) = std::sync::mpsc::channel::<(Moved, Value)>();
+    std::thread::spawn(move || {
+        while let Ok((mut mv, op)) = wrx.recv() {
+            let ev = mv.0.step(&op);
+            if wtx.send((mv, ev)).is_err() {
+                break;
+            }
+        }
+    });
+    Worker { tx, rx }
+}
+
 fn drive(inp: &str, outp: &str) {
     let f = BufReader::new(std::fs::File::open(inp).expect("open schedule"));
     let mut w = BufWriter::new(std::fs::File::create(outp).expect("create trace"));
     let mut ex = exec::Exec::new();
+    let mut workers: std::collections::HashMap<u64, Worker> = std::collections::HashMap::new();
     for line in f.lines() {
         let line = line.expect("read schedule");
         if line.trim().is_empty() {
@@ -86,18 +112,12 @@ fn drive(inp: &str, outp: &str) {
         }
         let ev = match op.get("th").and_then(|v| v.as_u64()) {
             None => ex.step(&op),
-            Some(_) => {
-                // run this op on a freshly spawned OS thread: the instances it
-                // touches are moved there and back
-                let mut moved = std::mem::take(&mut ex);
-                let op2 = op.clone();
-                let (m, ev) = std::thread::spawn(move || {
-                    let ev = moved.step(&op2);
-                    (moved, ev)
-                })
-                .join()
-                .expect("worker thread");
-                ex = m;
+            Some(t) => {
+                // run this op on persistent OS thread number t: every instance is moved there and back
+                let wk = workers.entry(t).or_insert_with(spawn_worker);
+                wk.tx.send((Moved(std::mem::take(&mut ex)), op.clone())).expect("worker alive");
+                let (m, ev) = wk.rx.recv().expect("worker result");
+                ex = m.0;
                 ev
             }
         };
